@@ -293,6 +293,8 @@ pub struct Proc {
     pub cur: crate::prog::Cursor,
     pub rx: BTreeMap<i32, RxLog>,
     pub tx_bytes: BTreeMap<i32, u64>,
+    /// what was written to fd 2 (bounded), for the stderr-sink oracle
+    pub tx_data: BTreeMap<i32, Vec<u8>>,
     pub epipes: u32,
     pub exit_cause: Option<ExitCause>,
     pub exit_at: Option<u64>,
@@ -1434,6 +1436,7 @@ impl Proc {
             cur: Default::default(),
             rx: BTreeMap::new(),
             tx_bytes: BTreeMap::new(),
+            tx_data: BTreeMap::new(),
             epipes: 0,
             exit_cause: None,
             exit_at: None,
